@@ -1,9 +1,201 @@
 package main
 
 import (
+	"context"
+	"encoding/json"
+	"fmt"
+	"io/ioutil"
+	"os"
+	"os/exec"
+	"path/filepath"
+	"strings"
+	"sync"
+	"sync/atomic"
+	"time"
+
+	"verifharness/pkg/fedgen"
 	"verifharness/pkg/vh"
 )
 
-func refreshChild(path string) {}
+// Schema refresh: while requests run, a goroutine swaps the executor's planner (exactly what Executor.poll does
+// after a schema sync) between two planners for the same schemas that differ in their ServiceSelector.  Every
+// answer must still equal the monolith's.  This runs in a child process: Executor.setPlanner writes the
+// Executors map while runOnService reads it without synchronisation (DESIGN C06 B), which the Go runtime may
+// abort with "concurrent map read and map write"; that abort is counted, not claimed.
 
-func runRefresh(run *vh.Run, o *vh.Opts, cases []Case) {}
+type refreshOut struct {
+	Requests   int      `json:"requests"`
+	Swaps      int64    `json:"swaps"`
+	Mismatches []string `json:"mismatches"`
+	Errors     []string `json:"errors"`
+	SubProblem []string `json:"sub_problems"`
+}
+
+func refreshChild(path string) {
+	var c Case
+	b, err := ioutil.ReadFile(path)
+	if err != nil || json.Unmarshal(b, &c) != nil {
+		fmt.Println(`{"errors":["cannot read case"]}`)
+		os.Exit(3)
+	}
+	out := refreshOut{}
+	w := fedgen.NewWorld(c.Seed)
+	g, err := buildGateway(&c, w)
+	if err != nil {
+		out.Errors = append(out.Errors, "build: "+err.Error())
+		b, _ := json.Marshal(out)
+		fmt.Println(string(b))
+		return
+	}
+	defer g.cancel()
+	mono, monoErr := runMonolith(&c, fedgen.NewWorld(c.Seed))
+	frags := map[string]FragDef{}
+	for _, f := range c.Frags {
+		frags[f.Name] = f
+	}
+	strips := unionTypenameStrips(&c, retMap(c.Services), frags)
+	var want interface{}
+	if monoErr == "" {
+		want = normaliseUnions(mono, "", strips)
+	}
+	if ref, refErr := runReference(&c, fedgen.NewWorld(c.Seed)); refErr == "" {
+		r, _ := canonJSON(ref)
+		want = normaliseUnions(r, "", strips) // the reference arbitrates (see main.go)
+	}
+	// the alternative planner: every multi-service field forced to its *other* owner where there is one
+	owners := map[string][]string{}
+	for _, s := range c.Services {
+		for _, f := range s.Query {
+			k := "Query." + fedgen.GqlName(f.Name)
+			owners[k] = append(owners[k], s.Name)
+		}
+		for _, o := range s.Objects {
+			for _, f := range o.Fields {
+				k := o.Name + "." + fedgen.GqlName(f.Name)
+				owners[k] = append(owners[k], s.Name)
+			}
+		}
+	}
+	alt := map[string]string{}
+	for k, os_ := range owners {
+		if len(os_) > 1 {
+			pick := os_[len(os_)-1]
+			if c.Selector[k] == pick {
+				pick = os_[0]
+			}
+			alt[k] = pick
+		}
+	}
+	ctx := context.Background()
+	pA, sA, errA := (&syncer{clients: g.clients, selector: selectorOf(c.Selector)}).FetchPlannerAndSchema(ctx)
+	pB, sB, errB := (&syncer{clients: g.clients, selector: selectorOf(alt)}).FetchPlannerAndSchema(ctx)
+	if errA != nil || errB != nil {
+		out.Errors = append(out.Errors, fmt.Sprint("planner: ", errA, errB))
+		b, _ := json.Marshal(out)
+		fmt.Println(string(b))
+		return
+	}
+	var stop int32
+	var swaps int64
+	var wg sync.WaitGroup
+	wg.Add(1)
+	go func() {
+		defer wg.Done()
+		for i := 0; atomic.LoadInt32(&stop) == 0; i++ {
+			if i%2 == 0 {
+				g.exec.VerifSetPlanner(pB, sB)
+			} else {
+				g.exec.VerifSetPlanner(pA, sA)
+			}
+			atomic.AddInt64(&swaps, 1)
+			time.Sleep(50 * time.Microsecond)
+		}
+	}()
+	var mu sync.Mutex
+	var rw sync.WaitGroup
+	for k := 0; k < 3; k++ {
+		rw.Add(1)
+		go func() {
+			defer rw.Done()
+			for i := 0; i < 12; i++ {
+				gw, gwErr, timedOut := runGateway(g, &c)
+				mu.Lock()
+				out.Requests++
+				switch {
+				case timedOut:
+					out.Errors = append(out.Errors, "timeout")
+				case gwErr != "" && monoErr == "":
+					out.Errors = append(out.Errors, gwErr)
+				case gwErr == "" && want != nil:
+					got := normaliseUnions(stripAt(gw, "", strips), "", strips)
+					if !deepEqualJSON(got, want) {
+						out.Mismatches = append(out.Mismatches, short(js(got), 300)+" vs "+short(js(want), 300))
+					}
+				}
+				mu.Unlock()
+			}
+		}()
+	}
+	rw.Wait()
+	atomic.StoreInt32(&stop, 1)
+	wg.Wait()
+	out.Swaps = atomic.LoadInt64(&swaps)
+	g.mu.Lock()
+	for _, s := range g.log {
+		if s.Sig != "" {
+			out.SubProblem = append(out.SubProblem, s.Sig+": "+s.Service+" {"+short(s.Text, 200)+"} "+s.Problem)
+		}
+	}
+	g.mu.Unlock()
+	b, _ = json.Marshal(out)
+	fmt.Println(string(b))
+}
+
+func runRefresh(run *vh.Run, o *vh.Opts, cases []Case) {
+	limit := 6
+	if o.Tier == "thorough" {
+		limit = 60
+	}
+	n := 0
+	for idx, c := range cases {
+		if !c.Refresh || n >= limit {
+			continue
+		}
+		n++
+		path := filepath.Join(o.Out, fmt.Sprintf("refresh_%d.json", idx))
+		b, _ := json.Marshal(c)
+		ioutil.WriteFile(path, b, 0o644)
+		ctx, cancel := context.WithTimeout(context.Background(), 60*time.Second)
+		cmd := exec.CommandContext(ctx, os.Args[0], "-refresh-child", path)
+		outb, err := cmd.CombinedOutput()
+		cancel()
+		text := string(outb)
+		if err != nil {
+			if strings.Contains(text, "concurrent map") {
+				run.Hist("refresh:executors-map-race-abort(not claimed)")
+				continue
+			}
+			run.Fail(idx, "refresh-run-crashed", short(text, 1500), c)
+			continue
+		}
+		var ro refreshOut
+		line := text
+		if i := strings.LastIndex(strings.TrimSpace(text), "\n"); i >= 0 {
+			line = strings.TrimSpace(text)[i+1:]
+		}
+		if json.Unmarshal([]byte(line), &ro) != nil {
+			run.Fail(idx, "refresh-run-crashed", "unparsable child output: "+short(text, 800), c)
+			continue
+		}
+		run.Hist("refresh:cases")
+		run.Histogram["refresh:requests"] += ro.Requests
+		run.Histogram["refresh:planner-swaps"] += int(ro.Swaps)
+		if len(ro.Mismatches) > 0 {
+			run.Fail(idx, "gateway-answer-changes-during-schema-refresh", ro.Mismatches[0], c)
+		} else if len(ro.Errors) > 0 {
+			run.Fail(idx, "gateway-error-during-schema-refresh", ro.Errors[0], c)
+		} else if len(ro.SubProblem) > 0 {
+			run.Fail(idx, "subquery-problem-during-schema-refresh", ro.SubProblem[0], c)
+		}
+	}
+}
